@@ -344,7 +344,25 @@ func (fv *FV) applyContract(st *State, spec *FuncSpec, fn *ssa.Function, c *ssa.
 	}
 	// ghost variables of the callee are existentially quantified for the caller
 	for _, g := range spec.GhostAt {
-		proto := pre.Eval(g.Clause.E)
+		var proto Term
+		if id, ok := g.Clause.E.(*EIdent); ok && (id.Name == "callresult" || id.Name == "callresult1") {
+			ri := 0
+			if id.Name == "callresult1" {
+				ri = 1
+			}
+			for k, f := range fv.eng.funcs {
+				if lastPart(k) == g.Callee && funcPkgName(f) == spec.PkgName && f.Signature.Results().Len() > ri {
+					t := f.Signature.Results().At(ri).Type()
+					proto = Term{Sort: fv.sortOf(t), T: t}
+					break
+				}
+			}
+		} else {
+			proto = pre.Eval(g.Clause.E)
+		}
+		if proto.Sort == "" {
+			continue
+		}
 		gv := fv.freshConst(st, "ghost_"+g.Name, proto.Sort, proto.T)
 		post.vars[g.Name] = gv
 	}
